@@ -144,6 +144,10 @@ class Instrs(CallsMixin):
     def explicit_panic(self, st, fr, ins):
         if self.cx.path_feasible():
             self.cx.mark_covered(st)
+        if self.cx.contract.opts.get('explicit-panic') == 'allowed' and fr is self.cx.top:
+            self.cx.notes.append('explicit panic statements are allowed by the contract (allow-explicit-panic)')
+            self.cx.npaths += 1
+            return
         self.panic_check(st, fr, ins, z3.BoolVal(False), 'explicit')
         self.cx.npaths += 1
 
@@ -178,8 +182,8 @@ class Instrs(CallsMixin):
         loc = st.loc_for(et, ref)
         st.store(loc, V.zero_val(types, et))
         v = Val(t, {(): ref})
-        if not ins.get('heap'):
-            st.locals.append(loc)
+        # private until its address is stored or handed to unknown code (see escape())
+        st.locals.append(loc)
         self.setreg(st, ins, v)
         if ins.get('comment') and fr is self.cx.top:
             st.names.setdefault(ins['comment'], ('addr', ins['name']))
@@ -410,6 +414,7 @@ class Instrs(CallsMixin):
         v = self.operand(st, fr, ins['val'])
         self.nonnil(st, fr, ins, a)
         loc = st.ptr_loc(a)
+        self.escape(st, [v])
         st.store(loc, Val(loc.t, v.lv, arr=v.arr))
 
     def op_Slice(self, st, fr, b, i, ins):
@@ -509,6 +514,36 @@ class Instrs(CallsMixin):
         st.assume(fid > 0)
         self.setreg(st, ins, Val(ins['type'], {(): fid}, fn=fn['name'], bindings=binds))
 
+    def escape(self, st, vals):
+        """allocations whose address (directly, as a slice base, or through a closure binding)
+        is among vals are no longer private to this function"""
+        if not st.locals:
+            return
+        terms = []
+        todo = list(vals)
+        while todo:
+            v = todo.pop()
+            if not isinstance(v, Val):
+                continue
+            if v.bindings:
+                todo.extend(x for x in v.bindings if isinstance(x, Val))
+            if v.loc is not None:
+                terms.append(v.loc.ref)
+            if v.arr is not None:
+                terms.append(v.arr.ref)
+            if v.lv:
+                for t in v.lv.values():
+                    if z3.is_int(t):
+                        terms.append(t)
+        if not terms:
+            return
+        keep = []
+        for l in st.locals:
+            if any(t.eq(l.ref) for t in terms):
+                continue
+            keep.append(l)
+        st.locals = keep
+
     def op_MakeChan(self, st, fr, b, i, ins):
         ref = st.new_ref('chan')
         self.setreg(st, ins, Val(ins['type'], {(): ref}))
@@ -569,6 +604,7 @@ class Instrs(CallsMixin):
         st.heap.set(kh, z3.Store(has, m.term, z3.Store(z3.Select(has, m.term), kt, z3.BoolVal(True))))
         if v.lv is None:
             raise OutOfSubset('storing interior pointer in map')
+        self.escape(st, [v])
         for (p, s, role, kvk, reg) in vals:
             st.heap.set(kvk, z3.Store(reg, m.term, z3.Store(z3.Select(reg, m.term), kt, v.lv[p])))
 
@@ -790,14 +826,16 @@ class Instrs(CallsMixin):
                     if types.kind(xt) == 'slice':
                         et = types.elem(xt)
                         base = None
+                        rng = None
                         if self.defined_outside(fr, ins['x'], body):
                             sv = self.operand(st, fr, ins['x'])
                             if sv.arr is None:
                                 base = sv.lv[('b',)]
+                                rng = (sv.lv[('o',)], sv.lv[('o',)] + sv.lv[('l',)])
                             else:
                                 a = sv.arr
                                 return (a.fam, a.tk, a.static_path() + ('[]',) + tuple(reversed(steps)), a.ref)
-                        return ('elems', st.elems_tk(et), ('[]',) + tuple(reversed(steps)), base)
+                        return ('elems', st.elems_tk(et), ('[]',) + tuple(reversed(steps)), base, rng)
                     steps.append('[]')
                     cur = ins['x']
                     continue
@@ -831,6 +869,7 @@ class Instrs(CallsMixin):
         body = fr.cfg.loops[h]
         writes = {}
         everything = False
+        self._loop_ranges = {}
 
         def add(pfx, base):
             if pfx is None:
@@ -854,6 +893,11 @@ class Instrs(CallsMixin):
                         everything = True
                     else:
                         add(t, t[3] if len(t) > 3 else None)
+                        if t[0] != 'fresh':
+                            k3 = (t[0], t[1], t[2])
+                            rr = t[4] if len(t) > 4 else None
+                            cur = self._loop_ranges.get(k3, [])
+                            self._loop_ranges[k3] = None if (rr is None or cur is None or t[3] is None) else cur + [(t[3], rr)]
                 elif op == 'MapUpdate':
                     mt = types.under(ins['map']['type'])
                     base = None
@@ -879,6 +923,7 @@ class Instrs(CallsMixin):
         # explicit loop modifies clause overrides the static analysis (still checked by frame at exit? no:
         # it is an assumption-free over-approximation only if it covers the static set; we use the union)
         saved = [(loc, st.load(loc, facts=False)) for loc in st.locals]
+        stable = self.stable_snapshot(st, fr) if w == 'all' else []
         st.bump_frontier('loop')
         if w == 'all':
             ev = Event(fresh_evid(), lambda key: True, st.frontier, None, 'loop(all)')
@@ -887,6 +932,9 @@ class Instrs(CallsMixin):
             body = fr.cfg.loops[h]
             for loc, v in saved:
                 st.store(loc, v)
+            for (txt, l, v) in stable:
+                st.store(l, v)
+                self.cx.assumed_used.add('frame-stable over opaque calls (assumed): ' + txt)
             self.cx.notes.append('loop at block %d of %s havocs the whole heap (opaque call or unresolved store inside)' % (h, fr.fnkey))
         elif w:
             prefixes = dict(w)
@@ -910,6 +958,27 @@ class Instrs(CallsMixin):
         # candidate frame: memory that existed before the loop is not written by appends/fresh stores
         w = self.loop_writes(st, fr, h)
         if w != 'all':
+            # stores through (bounds-checked) index expressions on slices defined before the loop
+            # leave the rest of the backing array alone
+            for pk, lst in (self._loop_ranges or {}).items():
+                if not lst or w.get(pk) is None:
+                    continue
+                only_idx = all(True for _ in lst)
+                for key in list(st.heap.r.keys()):
+                    if key[0] == pk[0] and key[1] == pk[1] and key[2][:len(pk[2])] == pk[2]:
+                        pre = st.heap.r[key]
+                        sd = st.heap.sorts[key]
+
+                        def outside(s, key=key, pre=pre, sd=sd, lst=lst):
+                            cur = s.heap.get(key, sd, s.alloc0)
+                            i = z3.Int('fr@i')
+                            cs = []
+                            for (base, (lo, hi)) in lst:
+                                others = [z3.And(b2 == base, i >= l2, i < h2) for (b2, (l2, h2)) in lst]
+                                cs.append(z3.ForAll([i], z3.Implies(z3.Not(z3.Or(others)),
+                                                                    z3.Select(z3.Select(cur, base), i) == z3.Select(z3.Select(pre, base), i))))
+                            return z3.And(cs)
+                        out.append(('outside.%s' % (str(abs(hash(key)) % 100000)), outside, None))
             F = st.frontier
             for pk, refs in w.items():
                 if refs is not None or pk[0] != 'elems':
